@@ -1,10 +1,42 @@
 LEVEL = "model_checking"
 RULE = ("BEE part (hasheq): odometer over all ordered pairs (x,y) of byte strings of length <=3 over {a,A,b,B,0x00,0xFF} "
         "(0x00 left out for C strings) as aws_string / C string / byte cursor / case-insensitive byte cursor keys, plus all "
-        "pairs from a 20-value pointer and uint64 boundary set; x and y are always separate exact-size heap objects. "
-        "non-trivial = the pair's equality function returned true (the antecedent of 'equal keys hash equally' holds).")
+        "pairs from a 20-value pointer and uint64 boundary set; x and y are always separate exact-size heap objects; each "
+        "pair is also used as two keys of a real aws_hash_table built with the (hash, equality) pair under test. "
+        "non-trivial = the pair's equality function returned true, i.e. the antecedent of 'equal keys hash equally' holds.")
+EXPLANATION = ("ESX part (map): the real aws_hash_table under harness-chosen hash functions, every configuration explored to a "
+               "fixpoint (all operation histories of any length over its alphabet); reference association list compared after "
+               "every operation: count, find() of all 8 key pointers, slot array contents, structural invariants, per-operation "
+               "destructor deltas; iteration with every deletion pattern by visit index.")
 HARNESSES = [
     dict(name="map", src=["map.c"], variant="asan", deadline={"quick": 240, "thorough": 1500}),
     dict(name="hasheq", src=["hasheq.c"], variant="asan", deadline={"quick": 120, "thorough": 300}),
 ]
-ASSUMPTIONS = []
+ASSUMPTIONS = [
+    "key universe: key objects k0..k4, twins k0' k1' (equal to k0 / k1 under the equality function, different pointer), the NULL key; "
+    "values v0, v1 and the NULL value left by aws_hash_table_create; at most 5 entries live (6 in the thorough-only layout6 "
+    "configurations), slot arrays of 2, 4, 8 and 16 slots (initial sizes 0 and 16 in quick; 0,1,2,3,4,5,8,9,16 in thorough)",
+    "hash functions: zero (library maps it to code 1), constant 5, identity (k0 and k1 share code 1), last-slot (distinct codes, low "
+    "bits all ones: chain spills over the end of the array), two adjacent clusters ..0E/..0F, high-bits-only (home slot 0 at every size); "
+    "the NULL key always carries the library's own code",
+    "the alphabet is bounded by four profiles, each configuration is run to a FIXPOINT: layout = six identities with one value "
+    "(create on k2, twin k0' as lookup key); payload = identities k0 k1 k2 NULL with both twins, both values and create on every "
+    "key, <=4 live; full = all eight key objects, v1 only with k0 k0' k1, create only with k0 k2 NULL; pair = two tables with their "
+    "own hash function / destructor set / initial size, keys k0 k1 k0' NULL, <=3 live, every single-table operation on table A "
+    "plus swap, move in both directions, clean_up (also repeated), init, eq in both directions",
+    "find and get_entry_count are not alphabet symbols: they are called for all 8 key pointers after every operation and after "
+    "every iterator deletion in the middle of an iteration; clean_up with its destructor deltas runs in every reachable state",
+    "iteration: all 2^n deletion patterns by visit index with destroy_contents=false, six patterns with destroy_contents=true, "
+    "foreach with CONTINUE / DELETE / stop / ERROR flags; reading (DESIGN section 6): the set visited is exactly the set stored "
+    "at aws_hash_iter_begin, each once",
+    "reading: put() with the very key pointer that is already stored does not overwrite that key object (it stays in the table): "
+    "key destructor expected 0 times, value destructor once; put() with an equal but distinct key object destroys the old key object once",
+    "destructor calls are counted per argument pointer including NULL (NULL key, NULL value of a created entry)",
+    "not demanded because neither property nor header states it: the return value of remove_element, the number of visits after a "
+    "foreach callback returns ITER_DELETE without ITER_CONTINUE, allocator balance, the exact hash code stored for NULL / zero-hash keys",
+    "a table grown from 2 slots passes through every state a table initialised with more slots can be in (tables never shrink, "
+    "keys can be removed), so initial sizes other than 0 and 16 add only the init path",
+    "replayed history prefixes keep the per-operation result checks but skip the whole-state oracle (it ran when the prefix was first "
+    "explored; the engine verifies the canonical state after every replay)",
+    "states are de-duplicated on a 128-bit hash of the canonical state (hash compaction)",
+]
